@@ -7,6 +7,7 @@
 -/
 import Hagall.Model.Attach
 import Hagall.Model.Handover
+import Hagall.Model.Writers
 namespace Hagall.Props.C01Conc
 open Hagall.Attach
 
@@ -114,5 +115,39 @@ open Hagall.Handover in
 theorem C01_old_handover_leaves_a_stale_action :
     (run false [.O1, .N1, .N2, .N3, .O2]).hasAct = true ∧ (run false [.O1, .N1, .N2, .N3, .O2]).hasEnt = false ∧
     (run false [.O1, .N1, .N2, .N3, .O2]).action = false := by decide
+
+/-! ### several writers of one item against a listener (F26, recorded) -/
+
+open Hagall.Writers in
+/-- **If a write were applied and relayed in one critical section**, the listener's view would equal the server's state
+    after every step of every interleaving of any number of writers. -/
+theorem C01_conc_atomic_writes_converge (ms : List Writers.Move) (hms : ∀ m ∈ ms, m.atomic = true) :
+    (Writers.run {} ms).view = (Writers.run {} ms).srv := by
+  have : ∀ (ms : List Writers.Move) (s : Writers.St), s.view = s.srv → (∀ m ∈ ms, m.atomic = true) →
+      (Writers.run s ms).view = (Writers.run s ms).srv := by
+    intro ms
+    induction ms with
+    | nil => intro s h _; exact h
+    | cons m ms ih =>
+      intro s h hc
+      refine ih (Writers.step s m) ?_ (fun m' hm' => hc m' (List.mem_cons_of_mem _ hm'))
+      have hm := hc m (List.mem_cons_self ..)
+      cases m with
+      | apply w v => cases hm
+      | relay w => cases hm
+      | write w v => simp [Writers.step]
+  exact this ms {} rfl hms
+
+open Hagall.Writers in
+/-- **As the code is (F26).**  Two writers: both writes are applied, then relayed in the other order; everybody is done,
+    the server holds the second write, the listener the first. -/
+theorem C01_concurrent_writers_diverge :
+    let s := run {} [.apply 1 11, .apply 2 22, .relay 2, .relay 1]
+    s.pending = [] ∧ s.srv = some 22 ∧ s.view = some 11 := by decide
+
+open Hagall.Writers in
+/-- one writer alone is followed faithfully: the split matters only between writers -/
+example : let s := run {} [.apply 1 11, .relay 1, .apply 1 12, .relay 1]
+    s.pending = [] ∧ s.srv = some 12 ∧ s.view = some 12 := by decide
 
 end Hagall.Props.C01Conc
